@@ -174,6 +174,22 @@ theorem names_reject_identifiers (extra : Char → CharClass) (name : List Char)
   have hmem : '_' ∈ name := List.mem_of_getElem? h.2.2.1
   exact name_with_foreign_char_rejected extra name '_' hmem (by simp [classify]) (by decide)
 
+/-- Names that look like legacy identifiers (lower-case UUIDs) are rejected: either
+they start with a digit, or they pass the character loop with a dash and
+`uuid.Parse` accepts them. -/
+theorem names_reject_legacy_identifiers (extra : Char → CharClass) (name : List Char)
+    (h : legacyMatches name = true) : ensureNameValid extra name ≠ .ok := by
+  rcases names_reject_legacy extra name h with e | e <;> rw [e] <;> decide
+
+/-- Hence no string that `IsValid` accepts as an identifier (either format) is
+accepted as a session name. -/
+theorem names_reject_valid_identifiers (extra : Char → CharClass) (name : List Char)
+    (h : isValid name = true) : ensureNameValid extra name ≠ .ok := by
+  simp only [isValid, Bool.or_eq_true] at h
+  rcases h with h | h
+  · exact names_reject_identifiers extra name h
+  · exact names_reject_legacy_identifiers extra name h
+
 /-- In particular every identifier `New` can return is rejected as a name. -/
 theorem names_reject_new_identifiers (extra : Char → CharClass) (pfx random : Bytes)
     (hp : PrefixOK pfx) (hr : random.length = 32) :
